@@ -26,6 +26,13 @@ SHARDS = {"quick": 1, "thorough": 1}  # one shard; it runs 16 session subprocess
 BUDGET = {"quick": 100.0, "thorough": 900.0}  # ceilings (heavily loaded machine); typical use is 15-25 s / 2-4 min
 WORKERS = 16
 REQUIRE = {
+    "reach:display._posix_raw_display.Screen._stop": 100,
+    "reach:display._posix_raw_display.Screen.signal_restore": 100,
+    "reach:display._raw_display_base.Screen._stop_mouse_restore_buffer": 100,
+    "reach:display._raw_display_base.Screen._sigwinch_handler": 50,
+    "reach:event_loop.main_loop.MainLoop._run_screen_event_loop": 5,
+    "reach:event_loop.main_loop.MainLoop.entering_idle": 500,
+    "reach:widget.popup.PopUpTarget.keypress": 50,
     "fresh_vs_forked_agree": 6,
     "sessions": 100,
     "sessions_faultfree": 8,
@@ -197,7 +204,11 @@ def judge(spec, res, ctx, base_rst=None):  # noqa: C901, PLR0912, PLR0915
     pop = "pop" if spec["pop_ups"] else "nopop"
 
     def add(clause, detail, msg):
-        v.append((f"C12|{tag}|{clause}|{detail}|inj={icls}", msg))
+        # ordering / redraw defects show before any fault is injected: their signature does not name the injection
+        if clause in ("ORD", "RDW"):
+            v.append((f"C12|{tag}|{clause}|{detail}", msg + f" [session inj={icls}]"))
+        else:
+            v.append((f"C12|{tag}|{clause}|{detail}|inj={icls}", msg))
 
     def add_rst(detail, msg):
         # a restoration failure that the fault-free session of the same configuration shows too does not depend on the
@@ -572,6 +583,10 @@ def evaluate(ctx, spec, res, base_rst=None):
         ctx.count("sessions_faultfree")
     for site, n in res["counts"].items():
         ctx.count(f"callbacks:{site}", n)
+    for name, n in res.get("reach", {}).items():
+        ctx.count(f"reach:{name}", n)
+    if spec["loop"] in LOOPS and spec["hook"]:
+        ctx.count(f"reach:event_loop.{spec['loop']}.run", 1)
     vs = judge(spec, res, ctx, base_rst)
     desc = [cfg_of(spec), spec["tokens"], spec.get("inject")]
     ctx.case(desc, nontrivial=b"\x1b[?1049h" in res["master"].encode("latin-1"))
